@@ -354,6 +354,11 @@ def scenario(w):
         return loaded
 
     # ---- history -----------------------------------------------------------------------------------
+    if mode == 'behaviour' and variant == 'complete_ensemble_sift':
+        # without a cap the complete ensemble keeps extracting IMFs until the last one has fewer than two
+        # peaks, which takes minutes under some stop rules; every behavioural comparison runs it four times
+        if not do_edit('set', 'max_imfs', 2, 'int'):
+            return
     nops = 1 + ch.pick('nops', 10 if w.tier == 'quick' else 24)
     edits = valid_edits(variant)
     for step in range(nops):
